@@ -155,7 +155,7 @@ c02_check(void)
         if (!G[e].exists || !G[e].hasdata) continue;
         for (k = 0; k < e; k++) if (G[k].exists && TAG[k] == TAG[e] && REF[k] == REF[e]) dup = 1;
         if (dup) continue;
-        n = h4spec_read(memio_files[0].data, memio_files[0].size, &sp, TAG[e], REF[e], rec, GMAX, memio_files[1].exists ? memio_files[1].data : 0,
+        n = h4spec_read(memio_files[0].data, memio_files[0].size, &sp, TAG[e], REF[e], rec, GMAX, memio_files[1].exists ? (const unsigned char *)memio_files[1].data : (const unsigned char *)0,
                         memio_files[1].exists ? memio_files[1].size : 0);
         H4V_ASSERT(n != -1, "C02.special: a special element's header/tables are inconsistent with the objects they reference");
         if (n < 0) continue;
@@ -233,6 +233,40 @@ check_all(void)
             for (e = 0; e < NEL; e++)
                 if (G[e].exists)
                     H4V_ASSERT(seen[e], "H.dir.find.all: wildcard search misses a live entry");
+        }
+    }
+    /* searches with one wildcard: (any tag, this ref) and (this tag, any ref), both directions */
+    for (e = 0; e < NEL; e++) {
+        int dir, k2;
+        if (!G[e].exists)
+            continue;
+        for (dir = 0; dir < 2; dir++) {
+            uint16 ft = 0, fr = 0;
+            int32  fo, fl;
+            int    n = 0, want = 0, hit = 0, guard = 0;
+            for (k2 = 0; k2 < NEL; k2++)
+                if (G[k2].exists && REF[k2] == REF[e])
+                    want++;
+            while (guard++ < 12 && Hfind(fid, DFTAG_WILDCARD, REF[e], &ft, &fr, &fo, &fl, dir ? DF_BACKWARD : DF_FORWARD) == SUCCEED) {
+                uint16 bt = (uint16)(ft & 0x4000 ? ft & ~0x4000 : ft);
+                if (bt == DFTAG_VERSION || bt == DFTAG_LINKED)
+                    continue;
+                H4V_ASSERT(fr == REF[e], "H.dir.findref.other: search by reference returns another reference");
+                if (bt == TAG[e])
+                    hit++;
+                n++;
+            }
+            H4V_ASSERT(n == want && hit == 1, "H.dir.findref: search (any tag, this ref) does not enumerate exactly the live entries with that ref");
+            ft = 0; fr = 0; n = 0; want = 0; hit = 0; guard = 0;
+            for (k2 = 0; k2 < NEL; k2++)
+                if (G[k2].exists && TAG[k2] == TAG[e])
+                    want++;
+            while (guard++ < 12 && Hfind(fid, TAG[e], DFREF_WILDCARD, &ft, &fr, &fo, &fl, dir ? DF_BACKWARD : DF_FORWARD) == SUCCEED) {
+                if (fr == REF[e])
+                    hit++;
+                n++;
+            }
+            H4V_ASSERT(n == want && hit == 1, "H.dir.findtag: search (this tag, any ref) does not enumerate exactly the live entries of that tag");
         }
     }
 }
